@@ -95,12 +95,13 @@ var booleanFlags = map[string]bool{
 	"-x":          true,
 
 	// Test flags (TODO: support its special -args flag)
-	"-benchmem": true,
-	"-c":        true,
-	"-failfast": true,
-	"-fullpath": true,
-	"-json":     true,
-	"-short":    true,
+	"-artifacts": true,
+	"-benchmem":  true,
+	"-c":         true,
+	"-failfast":  true,
+	"-fullpath":  true,
+	"-json":      true,
+	"-short":     true,
 }
 
 var flagSet = flag.NewFlagSet("garble", flag.ExitOnError)
